@@ -34,7 +34,8 @@ GENOME = "ATGACTTGATAGGCATGCCTAAGT"
 def world_description(tier):
     w = WORLD[tier]
     return (f"layouts N={w['N']} k<={w['k']} x strands x CDS placements x f0 in 0..2 x all windows; gene/collection twins on N={w['Ng']}; scale family: "
-            f"transcripts of {SCALE_KS[tier]} exons, CDS placements and chunk windows on ladders of exon boundaries")
+            f"transcripts of {SCALE_KS[tier]} exons, CDS placements and chunk windows on ladders of exon boundaries; chunk questions asked BEFORE "
+            f"chromosome questions on one object; chromosome and chunk collections built from the SAME child objects")
 
 
 def shards(tier, seed):
